@@ -2,6 +2,7 @@ package main
 
 import (
 	"context"
+	"errors"
 	"fmt"
 	"os"
 	"sort"
@@ -78,6 +79,8 @@ func (o Op) String() string {
 	return o.Kind + `("")`
 }
 
+var errInjectedSendFail = errors.New("injected: send failed on the last untried store")
+
 type peerInfo struct{ id, store uint64 }
 
 type regionInfo struct {
@@ -143,6 +146,7 @@ type world struct {
 	tp      []regionInfo                   // cached ground truth (reset by snapshot)
 	served0 int                            // stale answers served before the current op
 	dead    bool                           // the code under test panicked: locks may be held, do not touch the instance again
+	reloadHit bool                         // the current lookup touches a usable cached entry that is scheduled for reload
 }
 
 type codecClient struct {
@@ -314,6 +318,22 @@ func (w *world) applicable(o Op) bool {
 	case "expire":
 		e := cachedEntryFor(&w.prev, keyOf(o.K))
 		return e != nil && e.TTL > time.Now().Unix()
+	case "sched":
+		// a usable entry that is not yet scheduled (a second OnSendFail only bumps epochs further)
+		e := cachedEntryFor(&w.prev, keyOf(o.K))
+		return e != nil && e.TTL > time.Now().Unix() && e.SyncFlags&locate.VerifC09FlagReloadOnAccess == 0
+	case "selm":
+		// the replica selector marks a region only when it sees a stale store epoch
+		e := cachedEntryFor(&w.prev, keyOf(o.K))
+		if e == nil || e.TTL <= time.Now().Unix() || e.SyncFlags&(locate.VerifC09FlagDelayedReloadPending|locate.VerifC09FlagDelayedReloadReady) != 0 {
+			return false
+		}
+		for _, st := range e.EpochStale {
+			if st {
+				return true
+			}
+		}
+		return false
 	case "drop":
 		return len(w.prev.Sorted)+len(w.prev.Regions)+len(w.prev.Stores) > 0
 	case "gc", "bgtick":
@@ -344,10 +364,80 @@ func (w *world) nextLeader(r *regionInfo) uint64 {
 // viol reports a lookup violation; the class gets a suffix when a stale PD answer was consumed
 // by the very call that failed (different cause, different finding).
 func (w *world) viol(key, what string) {
+	key = w.classKey(key)
 	if w.pd.served != w.served0 {
 		key += ":after-stale-pd-answer"
 	}
 	w.report(key, what)
+}
+
+// classKey names the cache-state class of a failing lookup: the call touched a usable cached
+// entry that was scheduled for reload (needReloadOnAccess / needDelayedReloadReady) and no stale
+// PD answer was consumed by the call (a stale answer is its own cause and keeps its own key).
+func (w *world) classKey(key string) string {
+	if w.reloadHit && w.pd.served == w.served0 {
+		key += ":on-reload-scheduled-entry"
+	}
+	return key
+}
+
+const reloadNow = locate.VerifC09FlagReloadOnAccess | locate.VerifC09FlagDelayedReloadReady
+
+// touchesReloadScheduled: does the cache (last dump) hold a usable entry flagged for reload that
+// the lookup described by o has to consult? Points use [start,end) or (start,end] (by end key),
+// ranges use overlap, by-id uses the id.
+func (w *world) touchesReloadScheduled(o Op) bool {
+	now := time.Now().Unix()
+	hit := func(f func(s, e string) bool) bool {
+		for i := range w.prev.Sorted {
+			e := &w.prev.Sorted[i]
+			if e.TTL > now && e.SyncFlags&reloadNow != 0 && f(string(e.Start), string(e.End)) {
+				return true
+			}
+		}
+		return false
+	}
+	point := func(k string, byEnd bool) bool {
+		return hit(func(s, e string) bool {
+			if byEnd {
+				return s < k && (e == "" || k <= e)
+			}
+			return s <= k && (e == "" || k < e)
+		})
+	}
+	switch o.Kind {
+	case "locate", "try", "send":
+		return point(keyOf(o.K), false)
+	case "locend":
+		return point(keyOf(o.K), true)
+	case "group":
+		for _, k := range o.Keys {
+			if point(keyOf(k), false) {
+				return true
+			}
+		}
+	case "range", "batch":
+		for _, r := range o.R {
+			a, b := keyOf(r[0]), keyOf(r[1])
+			if hit(func(s, e string) bool { return (b == "" || s < b) && (e == "" || a < e) }) {
+				return true
+			}
+		}
+	case "byid", "byidc":
+		id := regionOf(w.topo(), keyOf(o.K)).id
+		if o.Kind == "byidc" {
+			if c := cachedEntryFor(&w.prev, keyOf(o.K)); c != nil {
+				id = c.ID
+			}
+		}
+		for i := range w.prev.Sorted {
+			e := &w.prev.Sorted[i]
+			if e.ID == id && e.TTL > now && e.SyncFlags&reloadNow != 0 {
+				return true
+			}
+		}
+	}
+	return false
 }
 
 func (w *world) bo() *retry.Backoffer {
@@ -368,6 +458,11 @@ func (w *world) pdSync() {
 func (w *world) apply(o Op) (outcome string) {
 	w.curOp = o.String()
 	w.served0 = w.pd.served
+	w.reloadHit = w.touchesReloadScheduled(o)
+	if w.reloadHit && w.check {
+		w.st.reloadLookups.Add(1)
+		defer func() { outcome += "@reload-scheduled" }()
+	}
 	defer func() {
 		if p := recover(); p != nil {
 			msg := fmt.Sprint(p)
@@ -462,6 +557,23 @@ func (w *world) apply(o Op) (outcome string) {
 		w.cache.InvalidateCachedRegion(verIDOf(cachedEntryFor(&w.prev, k)))
 	case "expire":
 		locate.VerifC09SetTTL(w.cache, verIDOf(cachedEntryFor(&w.prev, k)), time.Now().Unix()-10)
+	case "sched":
+		// What RegionRequestSender.onSendFail does once NeedReloadRegion says that every store was
+		// tried: OnSendFail(..., scheduleReload=true, err). The entry stays valid and is flagged
+		// needReloadOnAccess; the failed store's epoch is bumped and the work peer switched.
+		ctx, err := w.cache.GetTiKVRPCContext(w.bo(), verIDOf(cachedEntryFor(&w.prev, k)), kv.ReplicaReadLeader, 0)
+		if err != nil || ctx == nil {
+			return "no-ctx"
+		}
+		w.cache.OnSendFail(w.bo(), ctx, true, errInjectedSendFail)
+		return "scheduled"
+	case "selm":
+		// Replica choice of a replica-read request on the entry: a stale store epoch makes the
+		// selector flag the region needDelayedReloadPending (the next gc round makes it ...Ready).
+		if !locate.VerifC09SelectReplica(w.cache, verIDOf(cachedEntryFor(&w.prev, k))) {
+			return "no-selector"
+		}
+		return "selected"
 	case "drop":
 		locate.VerifC09Drop(w.cache)
 	case "gc":
@@ -554,7 +666,7 @@ func (w *world) sendOnce(bo *retry.Backoffer, k string) (outcome string, served 
 	truth := regionOf(w.topo(), k)
 	if w.check && (rpcCtx == nil || rpcCtx.Region.GetID() != truth.id || rpcCtx.Region.GetVer() != truth.ver ||
 		rpcCtx.Peer.GetId() != truth.leader) {
-		w.report("send:served-by-wrong-region-or-peer", fmt.Sprintf("%s: Get(%s) answered via %v, truth region %d ver %d leader peer %d",
+		w.report(w.classKey("send:served-by-wrong-region-or-peer"), fmt.Sprintf("%s: Get(%s) answered via %v, truth region %d ver %d leader peer %d",
 			w.curOp, k, rpcCtx, truth.id, truth.ver, truth.leader))
 		return "VIOL", false
 	}
@@ -585,7 +697,7 @@ func errClass(err error) string {
 // Destructive (the instance is discarded afterwards).
 func (w *world) converge(rounds int) {
 	w.curOp = "converge"
-	for _, k := range pool {
+	for ki, k := range pool {
 		truth := regionOf(w.topo(), k)
 		if truth.leader == 0 || !w.up[truth.leaderStore()] {
 			w.st.convSkipped.Add(1)
@@ -602,6 +714,7 @@ func (w *world) converge(rounds int) {
 			for r := 0; r < rounds; r++ {
 				locate.VerifC09BgTick(w.cache) // time passes: health / resolve loops tick
 				w.served0 = w.pd.served
+				w.reloadHit = w.touchesReloadScheduled(Op{Kind: "send", K: ki})
 				out, served := w.sendOnce(bo, k)
 				w.pdSync()
 				if served {
